@@ -18,11 +18,11 @@ CHECKS = {
  "C14": dict(
     text="Views!Split (None-condition, band arithmetic, part rectangles) is model-checked exhaustively for every view in parents up to 3x3 with all "
          "(axis,start,size,parts) and all split-of-split compositions (tiling: ordered, sizes differ <= 1, pairwise disjoint, union = band, inside the view); "
-         "the band arithmetic is an Apalache lemma for all 1 <= parts <= size < 2^32. Then every (container kind incl. cropped/nested/mutable, view size, axis, "
+         "the band arithmetic is an Apalache lemma for all 1 <= parts <= size < 2^32 and a TLAPS theorem (proofs/BandProof, machine-checked on every run) for all naturals. Then every (container kind incl. cropped/nested/mutable, view size, axis, "
          "start, size, parts) up to the tier's bound and seeded split-of-split cases are executed on both builds; TLC judges the None/Some answer, "
          "every part's width/height/tag rows, and, for mutable parts, the parent after a distinct mark was written through each part.",
     note="Trusted: TLC/Apalache, harness tag reading. size = 0 / parts = 0 are unrepresentable (NonZeroU32). UnsafeImageMut is reached through the mutable default implementation only.",
-    design="4/C14", technique=TECH + "; Apalache lemma for the band arithmetic"),
+    design="4/C14", technique=TECH + "; Apalache lemma and TLAPS proof for the band arithmetic"),
  "C15": dict(
     text="The ideal fit-crop (exact rationals, Geometry!Fit*) is model-checked for all sizes <= 9 and 36 centerings (inside, aspect, full in one "
          "dimension, margin split by the clamped centering) and its inside-ness is an Apalache lemma for all sizes 1..65535. The implementation's f64 results "
@@ -151,6 +151,7 @@ m = {"version": 1,
                "source_commits": ["ef02d83", "927d2c0", "2fbaacf", "6d53a32"], "add_only": True},
      "engines": [{"name": "tlc", "path": "/usr/local/bin/tlc", "serves_properties": sorted(CHECKS), "kind_free_text": "TLA+ explicit-state model checker (model checks and trace validation)"},
                  {"name": "apalache", "path": "/usr/local/bin/apalache-mc", "serves_properties": sorted(CHECKS), "kind_free_text": "symbolic checker for arithmetic lemmas over full machine ranges"},
+                 {"name": "tlapm", "path": "/usr/local/bin/tlapm", "serves_properties": ["C14"], "kind_free_text": "TLA+ proof system: unbounded proof of the band arithmetic"},
                  {"name": "firv", "path": "/verif/harness", "serves_properties": sorted(CHECKS), "kind_free_text": "Rust conformance harness: executes cases against the real library and records traces (no oracle)"}],
      "checks": [], "not_applicable": [],
      "notes": "One entry point: ./check <ID> --tier quick|thorough. Exit 0 held, 1 VIOLATION, 2 tool failure. Known findings: known_findings.json."}
